@@ -1233,6 +1233,17 @@ def run(ctx):
         samples.append({"seed": r["seed"], "definition": r.get("definition"), "ops": (r.get("ops") or [])[:30],
                         "final": r.get("final")})
     out["samples"] = samples
+    # how many generated conformant, rerun-free histories satisfy the (decidable) hypotheses of
+    # C15_no_internal_error_history -- evaluated inside Coq on the very runs the engine went through
+    if ctx["model_ok"]:
+        try:
+            from harness import syscheck
+            n, in_scope, fails, why = syscheck.run_scope(seed % 100000, 8 if tier == "quick" else 60)
+            out["no_internal_error_scope"] = {"histories": n, "within_theorem_hypotheses": in_scope, "per_hypothesis": why}
+            for f in fails:
+                out["violations"].append(dict(f, property="C15", kind="scope"))
+        except Exception as e:   # the scope measurement must never break the check
+            out["no_internal_error_scope"] = {"error": repr(e)[:300]}
     return out
 
 
